@@ -87,4 +87,10 @@ def run(repo, tier) -> Result:
             res.fail("R-TRUTH", finding("C09", "R-TRUTH", f, sx, "the reading resolver tests a looked-up value by truthiness / `or`: a candle field or reading equal to 0 resolves to None and the formulas raise TypeError"))
     check_analysis_divisions("C09", res, repo)
     check_amorph_arity("C09", res, repo)
+    # totality of the formulas is proved through the helper summaries: the summaries are checked against the helpers' bodies
+    from ..contracts import check_all
+    from ..manager_rules import check_epoch
+
+    check_all("C09", res, repo)
+    check_epoch("C09", res, repo)
     return res
